@@ -691,6 +691,20 @@ impl Property for C08 {
                 go!(s);
             }
         }
+        // both streams set to fail: whichever is reached first must end the run
+        for n in 0..(if thorough { 12 } else { 4 }) {
+            let mut s = if n % 2 == 0 { Schedule::plain() } else { noisy_r.clone() };
+            s.seed = s.seed.wrapping_add(100 + n as u64);
+            let wp = tape.draw(full.out.len() as u32 + 1) as usize;
+            let rp = tape.draw(sc.input.len() as u32 + 1) as usize;
+            s.write_fault = Some((wp, WRITE_KINDS[(k0 + n) % WRITE_KINDS.len()]));
+            s.read_fault = Some((
+                ReadFaultAt::Byte(rp),
+                ReadFaultKind::Hard(READ_HARD_KINDS[(r0 + n) % READ_HARD_KINDS.len()]),
+            ));
+            stats.inc("count.runs_with_both_streams_set_to_fail");
+            go!(s);
+        }
         // flush fault: only observable if the interpreter flushes
         {
             let mut s = Schedule::plain();
